@@ -364,7 +364,7 @@ CredShapes == {p \in ConnectPkts({TRUE}, {NoWill, [w |-> TRUE, wq |-> 1, wr |-> 
                                  FewPropSeqs(1), FewPropSeqs(WILLCTX), {Txt(3), <<>>}, {Bin(3), <<>>}) : TRUE}
 CredCases ==
   {[kind |-> "cred", p |-> p, n |-> n, variant |-> vr, decoded |-> dc, reuse |-> FALSE, wk |-> 0] :
-     p \in CredShapes, n \in CredLens, vr \in 1..6, dc \in BOOLEAN}
+     p \in CredShapes, n \in CredLens, vr \in 1..8, dc \in BOOLEAN}
   \* the two CONNECT values are reused: a frame without credentials is decoded INTO each of them
   \cup {[kind |-> "cred", p |-> p, n |-> n, variant |-> vr, decoded |-> FALSE, reuse |-> TRUE, wk |-> 0] :
          p \in CredShapes, n \in {1, 9}, vr \in {1, 3}}
@@ -375,6 +375,8 @@ CredCases ==
 SecretA(x) == IF x.variant = 1 THEN Fill(x.n, 65)
               ELSE IF x.variant = 2 THEN [i \in 1..x.n |-> Txt(3)[((i - 1) % 3) + 1]]        \* repeats the client identifier
               ELSE IF x.variant = 3 THEN Fill(x.n, 42)                                          \* the mask character
+              ELSE IF x.variant = 7 THEN Fill(x.n, 32)                                          \* blank
+              ELSE IF x.variant = 8 THEN Fill(x.n, 48)                                          \* zeros (digits)
               ELSE [i \in 1..x.n |-> Txt(4)[((i - 1) % 4) + 1]]                                 \* repeats the will topic
 SecretB(x) == [i \in 1..x.n |-> IF i = x.n THEN 90 ELSE SecretA(x)[i] + (IF i % 2 = 0 THEN 1 ELSE 0)]
 CredOps(x, h, hw, su, sp) ==
@@ -438,7 +440,7 @@ ForeignOK == { <<64, 6, 0, 7, 0, 2, 11, 99>>,                    \* PUBACK carry
                <<32, 5, 0, 0, 2, 11, 5>>, <<224, 4, 0, 2, 11, 9>> }
 OwnCases ==
   {[kind |-> "own", a |-> a, b |-> b, mode |-> md] : a \in OwnFrames, b \in OwnFrames \cup ForeignOK, md \in 1..3}
-  \cup {[kind |-> "own", a |-> a, b |-> b, mode |-> 4] : a \in OwnFrames, b \in {<<192, 0>>}}
+  \cup {[kind |-> "own", a |-> a, b |-> b, mode |-> md] : a \in OwnFrames, b \in {<<192, 0>>}, md \in 4..5}
   \cup {[kind |-> "ownall", a |-> a, t |-> t] : a \in OwnFrames, t \in 0..15}
   \cup {[kind |-> "owninto", a |-> a] : a \in OwnFrames \cup OddConnects}
   \* every packet type carrying all its fields, then a body that ends early decoded INTO it: what a failed decode leaves behind
@@ -496,6 +498,19 @@ OwnProg(x) ==
             [op |-> "ScribbleSlice", h |-> 2, key |-> "AuthData"], [op |-> "ScribbleSlice", h |-> 2, key |-> "Password"],
             [op |-> "ScribbleSlice", h |-> 2, key |-> "Data"],
             [op |-> "WriteTo", h |-> 1], [op |-> "Diag", h |-> 3]>>
+        ELSE IF x.mode = 5 THEN  \* the same frame decoded twice (ReadPacket and UnmarshalBinary), then both packets grow in turn through their adders
+          LET t == x.a[1] \div 16
+              adders(h, j) ==
+                (IF t \in 1..11 \/ t \in {14, 15} THEN <<CallOp(h, "AddUserProp", <<Txt(1 + j), Txt(h)>>)>> ELSE <<>>)
+                \o (IF t = 3 THEN <<CallOp(h, "AddSubscriptionID", <<<<0, 10 * h + j>>>>)>> ELSE <<>>)
+                \o (IF t = 8 THEN <<CallOp(h, "AddFilters", << <<Txt(h + j), j % 3>> >>)>> ELSE <<>>)
+                \o (IF t = 10 THEN <<CallOp(h, "AddFilter", <<Txt(h + j)>>)>> ELSE <<>>)
+                \o (IF t \in {9, 11} THEN <<CallOp(h, "AddReasonCode", <<h + j>>)>> ELSE <<>>)
+          IN <<[op |-> "Stream", stream |-> 1, bytes |-> x.a \o x.a, observe |-> "all"], [op |-> "ReadPacket", h |-> 1, stream |-> 1],
+               [op |-> "ReadPacket", h |-> 2, stream |-> 1],
+               [op |-> "Buf", buf |-> 1, bytes |-> BodyOf(x.a)], [op |-> "Unmarshal", h |-> 3, type |-> ta, buf |-> 1, key |-> "new"]>>
+             \o adders(1, 1) \o adders(2, 1) \o adders(3, 1) \o adders(2, 2) \o adders(1, 2)
+             \o <<[op |-> "WriteTo", h |-> 1], [op |-> "WriteTo", h |-> 2], [op |-> "WriteTo", h |-> 3], [op |-> "Diag", h |-> 1]>>
         ELSE IF x.mode = 4 THEN  \* a frame read, every slice its packet handed out overwritten by the caller, the same frame read again
           <<[op |-> "Stream", stream |-> 1, bytes |-> x.a, observe |-> "all"], [op |-> "ReadPacket", h |-> 1, stream |-> 1],
             [op |-> "ScribbleSlice", h |-> 1, key |-> "Payload"], [op |-> "ScribbleSlice", h |-> 1, key |-> "CorrelationData"],
